@@ -156,15 +156,21 @@ def check_prune(trie, db, model, info, ref):
     return False
 
 
-def run_history(case, checks, info, want_aborts=False):
+def run_history(case, checks, info, state=None, ops=None, final_sweep=True):
     """
     case: {"prune": bool, "ops": [...]}.  Returns a dict of facts used by the callers
-    to decide non-triviality.
+    to decide non-triviality.  With state=(trie, db, model) the history `ops` continues
+    on an existing trie (the model dict is updated in place).
     """
-    prune = bool(case["prune"])
-    db = {}
-    trie = impl("construct", HexaryTrie, db, prune=prune)
-    model = {}
+    if state is None:
+        prune = bool(case["prune"])
+        db = {}
+        trie = impl("construct", HexaryTrie, db, prune=prune)
+        model = {}
+        ops = case["ops"]
+    else:
+        trie, db, model = state
+        prune = bool(trie.is_pruning)
     facts = {"deletes": 0, "overwrites": 0, "collapse": 0, "shared": 0, "batches": 0,
              "aborts": 0, "noop": 0, "merge-delete": 0}
     need_ref = "root" in checks or "prune" in checks
@@ -185,7 +191,7 @@ def run_history(case, checks, info, want_aborts=False):
         return nb
 
     nb = 0
-    for op in case["ops"]:
+    for op in ops:
         if op[0] != "batch":
             before = len(model)
             key, what = apply_simple(trie, model, op)
@@ -236,10 +242,44 @@ def run_history(case, checks, info, want_aborts=False):
             cm_exit("squash_changes-exit", cm, Abort("injected"))
         else:
             cm_exit("squash_changes-exit", cm)
-            model = bmodel
+            model.clear()
+            model.update(bmodel)
             info.label("batch-committed")
         nb = after(trie, model, None, True, nb)
-    # final full sweep
-    after(trie, model, None, True, nb)
+    if final_sweep:
+        after(trie, model, None, True, nb)
     facts["model"] = model
     return facts
+
+
+def play(trie, model, ops):
+    """Apply a history (simple ops and committed/aborted batches) without any oracle."""
+    for op in ops:
+        if op[0] != "batch":
+            apply_simple(trie, model, op)
+            continue
+        _, inner, end = op
+        if end >= 0:
+            end = min(end, len(inner))
+        cm = impl("squash_changes", trie.squash_changes)
+        b = cm_enter("squash_changes", cm)
+        bmodel = dict(model)
+        aborted = False
+        for i, iop in enumerate(inner):
+            if end == i:
+                aborted = True
+                break
+            apply_simple(b, bmodel, iop)
+        if end == len(inner):
+            aborted = True
+        if aborted:
+            cm_exit("squash_changes-exit", cm, Abort("injected"))
+        else:
+            cm_exit("squash_changes-exit", cm)
+            model.clear()
+            model.update(bmodel)
+
+
+def norm_counts(trie):
+    rc = impl("ref_count", lambda: trie.ref_count)
+    return {bytes(h): c for h, c in rc.items() if c}
